@@ -23,6 +23,7 @@ CONSTANTS
   GENBAL = 9
   FAILBUDGET = 2
   FRESH = TRUE
+  WANTED = {}
   PREFUND = 0
   PREDEL = 0
   EVENTS = {"Deposit","Delegate","Undelegate","NstUpdate","EndBlock","Withdraw"}
